@@ -117,6 +117,58 @@ type accCollector struct {
 	stmt ast.Node
 	out  []access
 	seen map[string]int
+	elem []access // accesses to the elements (backing array) of a slice expression
+}
+
+// pureSlice reports whether e is a side-effect free slice-typed expression over
+// identifiers / selectors / slicing that is in scope before the statement.
+func (c *accCollector) pureSlice(e ast.Expr) bool {
+	t := typeOf(e)
+	if t == nil {
+		return false
+	}
+	if _, ok := t.Underlying().(*types.Slice); !ok {
+		return false
+	}
+	var ok func(e ast.Expr) bool
+	ok = func(e ast.Expr) bool {
+		switch x := e.(type) {
+		case *ast.ParenExpr:
+			return ok(x.X)
+		case *ast.Ident:
+			obj := info.Uses[x]
+			if obj == nil {
+				return false
+			}
+			if _, isVar := obj.(*types.Var); !isVar {
+				return false
+			}
+			return !(c.stmt != nil && obj.Pos() >= c.stmt.Pos() && obj.Pos() < c.stmt.End())
+		case *ast.SelectorExpr:
+			s, isSel := info.Selections[x]
+			return isSel && s.Kind() == types.FieldVal && ok(x.X)
+		case *ast.SliceExpr:
+			for _, i := range []ast.Expr{x.Low, x.High, x.Max} {
+				if i == nil {
+					continue
+				}
+				switch i.(type) {
+				case *ast.BasicLit, *ast.Ident:
+				default:
+					return false
+				}
+			}
+			return ok(x.X)
+		}
+		return false
+	}
+	return ok(e)
+}
+
+func (c *accCollector) addElem(e ast.Expr, write bool) {
+	if c.pureSlice(e) {
+		c.elem = append(c.elem, access{e, write})
+	}
 }
 
 func exprString(e ast.Expr) string {
@@ -249,6 +301,34 @@ func (c *accCollector) visit(e ast.Expr, write bool) {
 		}
 		c.visit(x.Y, false)
 	case *ast.CallExpr:
+		// element accesses: append(dst, src...) / copy(dst, src) and the byte
+		// slices handed to Write / Sum / UnmarshalBinary (which read them)
+		if fn, ok := x.Fun.(*ast.Ident); ok {
+			if _, isBuiltin := info.Uses[fn].(*types.Builtin); isBuiltin {
+				switch fn.Name {
+				case "append":
+					if len(x.Args) >= 1 {
+						c.addElem(x.Args[0], true)
+					}
+					if len(x.Args) == 2 && x.Ellipsis.IsValid() {
+						c.addElem(x.Args[1], false)
+					}
+				case "copy":
+					if len(x.Args) == 2 {
+						c.addElem(x.Args[0], true)
+						c.addElem(x.Args[1], false)
+					}
+				}
+			}
+		}
+		if sel, ok := x.Fun.(*ast.SelectorExpr); ok {
+			switch sel.Sel.Name {
+			case "Write", "Sum", "UnmarshalBinary":
+				for _, a := range x.Args {
+					c.addElem(a, false)
+				}
+			}
+		}
 		if fn, ok := x.Fun.(*ast.Ident); ok && len(x.Args) > 0 {
 			switch fn.Name {
 			case "delete":
@@ -355,6 +435,13 @@ func accessStmts(s ast.Stmt, scope ast.Node, pos token.Pos) []ast.Stmt {
 			fn = "W"
 		}
 		out = append(out, &ast.ExprStmt{X: rtCall(fn, &ast.UnaryExpr{Op: token.AND, X: a.expr}, site(pos, "acc "+exprString(a.expr)))})
+	}
+	for _, a := range c.elem {
+		fn := "RS"
+		if a.write {
+			fn = "WS"
+		}
+		out = append(out, &ast.ExprStmt{X: rtCall(fn, a.expr, site(pos, "acc elements-of-"+strings.ReplaceAll(exprString(a.expr), " ", "")))})
 	}
 	return out
 }
